@@ -1,6 +1,7 @@
 """C18 - CSV dump/load round-trips typed rows (rxsci/container/csv.py; framing/line.py and io/file.py on the
 file path)."""
 import itertools
+import json
 import os
 import struct
 from collections import namedtuple
@@ -676,16 +677,35 @@ def run_impl(case):
     if case['kind'] == 'mem':
         lines, dend = collect(rx.from_(items).pipe(csv.dump(separator=sep, escapechar=esc)))
         rows, end = collect(rx.from_(lines).pipe(line.unframe(), csv.load(parser)))
-        return {'lines': lines, 'dump_end': dend, 'rows': [[enc(v) for v in r] for r in rows], 'end': end}
+        # one parser object serves several loads (a series of files read with the same schema): the second load of
+        # the same text must deliver the same rows
+        rows2, end2 = collect(rx.from_(lines).pipe(line.unframe(), csv.load(parser)))
+        o = {'lines': lines, 'dump_end': dend, 'rows': [[enc(v) for v in r] for r in rows], 'end': end}
+        r2 = [[enc(v) for v in r] for r in rows2]
+        if r2 != o['rows'] or end2 != end:
+            o['second_load'] = {'rows': r2[:3], 'n': len(r2), 'end': end2}
+        return o
     os.makedirs(FILES, exist_ok=True)
     _counter[0] += 1
     fn = os.path.join(FILES, 'f%05d.csv' % _counter[0])
-    _, dend = collect(rx.from_(items).pipe(csv.dump_to_file(fn, separator=sep, escapechar=esc, encoding='utf-8')))
+    # when completion is signalled the file must be complete on disk (a consumer may read it back from its
+    # on_completed callback): its size at that moment is compared with its final size
+    at_end, dend_l = [], []
+    rx.from_(items).pipe(csv.dump_to_file(fn, separator=sep, escapechar=esc, encoding='utf-8')).subscribe(
+        on_next=lambda i: None, on_error=lambda e: dend_l.append('error:' + type(e).__name__),
+        on_completed=lambda: (dend_l.append('completed'), at_end.append(os.path.getsize(fn) if os.path.exists(fn) else -1)))
+    dend = dend_l[0] if dend_l else 'pending'
     with open(fn, newline='', encoding='utf-8') as f:
         content = f.read()
     chunks, _ = collect(file.read(fn, size=64 * 1024, encoding='utf-8'))
     rows, end = collect(csv.load_from_file(fn, parser, encoding='utf-8'))
+    second = None
+    if len(items) <= 200:          # the same parser object reads the file a second time
+        rows2, end2 = collect(csv.load_from_file(fn, parser, encoding='utf-8'))
+        if [[enc(v) for v in r] for r in rows2] != [[enc(v) for v in r] for r in rows] or end2 != end:
+            second = {'n': len(rows2), 'end': end2}
     size = os.path.getsize(fn)
+    early = at_end[0] if at_end and at_end[0] != size else None
     with open(fn, 'rb') as f:
         data = f.read()
     os.remove(fn)
@@ -702,7 +722,7 @@ def run_impl(case):
         lines = [l + '\n' for l in content.split('\n')[:-1]] if content.endswith('\n') else None
         cseg = segs_multi(lines, shape, 1, ''.join) if lines else None
         rseg = segs_multi(rows, shape, 0, list)
-        o = {'content': cseg or [[content, 1]], 'dump_end': dend, 'lens': [len(c) for c in chunks],
+        o = {'content': cseg or [[content, 1]], 'dump_end': dend, 'size_at_completion': early, 'second_load': second, 'lens': [len(c) for c in chunks],
              'rows': rseg or ([[rows, 1]] if rows else []), 'end': end, 'bytes': size, 'chars': len(content),
              'straddle': straddle}
         if case.get('scale'):
@@ -710,7 +730,7 @@ def run_impl(case):
             if not with_model:
                 o['content'] = None      # not compared with the model (CSkip): the oracle needs the rows only
         return o
-    return {'content': segs(content, case['repeat'], head), 'dump_end': dend, 'lens': [len(c) for c in chunks],
+    return {'content': segs(content, case['repeat'], head), 'dump_end': dend, 'size_at_completion': early, 'second_load': second, 'lens': [len(c) for c in chunks],
             'rows': segs(rows, case['repeat']), 'end': end, 'bytes': size, 'chars': len(content),
             'straddle': straddle}
 
@@ -756,6 +776,12 @@ def oracle(case, obs):
         return None
     if 'raised' in obs:
         return {'sig': 'csv:raised', 'what': 'dump/load raised %s: %s' % (obs['raised'], obs.get('msg'))}
+    if obs.get('second_load'):
+        return {'sig': 'csv:parser-reused', 'what': 'the same parser object used for a second load of the same text: %s, the first '
+                'load gave %d rows and ended %s' % (json.dumps(obs['second_load'])[:200], len(obs['rows']), obs['end'])}
+    if obs.get('size_at_completion') is not None:
+        return {'sig': 'csv:completed-before-file-complete', 'what': 'dump_to_file signalled completion when the file held %d '
+                'bytes; complete it holds %d' % (obs['size_at_completion'], obs.get('bytes', -1))}
     want = all_rows(case)
     got = expand(obs['rows']) if case['kind'] in ('file', 'chunk') else obs['rows']
     esc = case['esc']
